@@ -1099,6 +1099,10 @@ func c38genOps(r *rand.Rand, tier string, emit func(string)) {
 				if !ck.isInteger() {
 					continue
 				}
+				// quick tier: every count kind for int operands, four representative count kinds otherwise
+				if tier != "thorough" && kn != "int" && ckn != "int" && ckn != "uint64" && ckn != "int8" && ckn != "uint8" {
+					continue
+				}
 				cs := c38counts(ck)
 				for _, op := range []string{"SHL", "SHR"} {
 					var pairs []string
@@ -1170,9 +1174,18 @@ func c38genOps(r *rand.Rand, tier string, emit func(string)) {
 			emit(fmt.Sprintf("T ? %d %s", h, s))
 		}
 	}
-	maxn := 3
-	for _, toks := range c38enum(maxn) {
+	// all trees with <= 2 nodes over the full alphabet, <= 3 (thorough: 4) nodes over the core alphabet
+	for _, toks := range c38enum(2, c38alphabet) {
 		emit("T ? 1 " + strings.Join(toks, " "))
+	}
+	maxn := 3
+	if tier == "thorough" {
+		maxn = 4
+	}
+	for _, toks := range c38enum(maxn, c38coreAlphabet) {
+		if len(toks) > 3 || strings.Contains(strings.Join(toks, " "), "p4") || strings.Contains(strings.Join(toks, " "), "V7") {
+			emit("T ? 2 " + strings.Join(toks, " "))
+		}
 	}
 	nt := 500
 	if tier == "thorough" {
@@ -1217,9 +1230,10 @@ var c38scenarios = []string{
 }
 
 var c38alphabet = []string{"p4", "p5", "r", "q", "V7", "e1", "D(", "C("}
+var c38coreAlphabet = []string{"p4", "r", "q", "V7", "D(", "C("}
 
 // all well-formed trees with at most n nodes over the alphabet
-func c38enum(n int) [][]string {
+func c38enum(n int, alphabet []string) [][]string {
 	var out [][]string
 	var rec func(cur []string, open []byte, nodes int)
 	rec = func(cur []string, open []byte, nodes int) {
@@ -1232,7 +1246,7 @@ func c38enum(n int) [][]string {
 		if nodes == n {
 			return
 		}
-		for _, a := range c38alphabet {
+		for _, a := range alphabet {
 			inDefer := len(open) > 0 && open[len(open)-1] == 'D'
 			if a == "V7" && inDefer {
 				continue
